@@ -49,6 +49,14 @@ func next(n int64) int64 {
 	mu.Lock()
 	defer mu.Unlock()
 	Calls++
+	if len(draws) == 0 && seeded {
+		state += 0x9e3779b97f4a7c15
+		z := state
+		z = (z ^ (z >> 30)) * 0xbf58476d1ce4e5b9
+		z = (z ^ (z >> 27)) * 0x94d049bb133111eb
+		z ^= z >> 31
+		return int64(z>>1) % n
+	}
 	if len(draws) == 0 {
 		return 0
 	}
